@@ -51,6 +51,8 @@ type result struct {
 	Stats        map[string]int64    `json:"stats,omitempty"`
 	Sample       interface{}         `json:"sample,omitempty"`
 	Sets         map[string][]string `json:"sets,omitempty"`
+	Fingerprints []string            `json:"fingerprints,omitempty"`
+	Evals        int64               `json:"evals,omitempty"`
 }
 
 type finding struct {
@@ -377,6 +379,7 @@ func runCheck(prop, tier string, seed int64, only string, writeEvidence bool) in
 	findings := loadFindings()
 	held, inconcl, violated := 0, 0, 0
 	fps := map[string]bool{}
+	evals := int64(0)
 	stats := map[string]int64{}
 	sets := map[string]map[string]bool{}
 	var samples []interface{}
@@ -401,6 +404,14 @@ func runCheck(prop, tier string, seed int64, only string, writeEvidence bool) in
 		}
 		if r.Nontrivial && r.Fingerprint != "" {
 			fps[r.Fingerprint] = true
+		}
+		for _, fp := range r.Fingerprints {
+			fps[fp] = true
+		}
+		if r.Evals > 0 {
+			evals += r.Evals
+		} else {
+			evals++
 		}
 		if r.Sample != nil && len(samples) < 3 {
 			samples = append(samples, map[string]interface{}{"case": r.Case, "name": r.Name, "verdict": r.Verdict, "sample": r.Sample})
@@ -469,7 +480,8 @@ func runCheck(prop, tier string, seed int64, only string, writeEvidence bool) in
 
 	if writeEvidence && only == "" {
 		cov := map[string]interface{}{
-			"evaluations":         len(all),
+			"evaluations":         evals,
+			"cases":               len(all),
 			"distinct_nontrivial": len(fps),
 			"rule":                p.Rule,
 			"samples":             samples,
